@@ -79,10 +79,8 @@ EntriesAgree == res # "EntryDiffers"
 SearchesArrive == res # "SearchDiffers"
 TreesAgree == res # "TreeDiffers"
 \* expected to be violated while the findings are open (witnesses that the deviations are reachable)
-NoNamedDeviation == res \notin {"PlusFlagAmbiguity", "SearchCapturedBy_SpartanProtocol"}
-\* no search request is claimed by another protocol class (the Gopher+ flag ambiguity aside, which is named separately),
-\* except the residue of the Spartan shape: fix c3ed498 tells a Gopher line by its leading slash, so the line of a
-\* slash-less selector ("echo.pyg<TAB>a b 1") is still a well-formed Spartan line
+NoNamedDeviation == res \notin {"PlusFlagAmbiguity"}
+\* no search request is claimed by another protocol class (the Gopher+ flag ambiguity aside, which is named separately);
+\* the Spartan shape is repaired for good by c3ed498 (leading slash) and 7876341 (a Spartan line holds no TAB)
 OnlyKnownCaptures == ~StartsWith(res, "SearchCapturedBy_")
-                     \/ (res = "SearchCapturedBy_SpartanProtocol" /\ p = "G" /\ ~StartsWith(e.sel, "/"))
 =============================================================================
